@@ -1,6 +1,7 @@
 /-
-Helper lemmas about `Value.cmp` / `Value.beq` (`impl Ord for Value`, derived `PartialEq`):
-compatibility with `rank`, orientation, transitivity on the domain `inD`.
+Helper lemmas about `Value.cmp` / `cmpL` / `cmpKV` and `Value.beq` (`impl Ord for Value`, derived
+`PartialEq`): compatibility with `rank`, orientation (all values), transitivity on the domain
+`inD` (recursively through arrays and objects), agreement of `==` with `cmp … = Equal` on `inS`.
 -/
 import AgProofs.Lemmas.F64
 
@@ -10,16 +11,29 @@ open F64
 
 /-! ### the domain
 
-`inD fl v`: `v` is not an object (the model's object order is a stand-in for hash order), and
-either there are no floats at all (`fl = false`, integers unrestricted) or floats are allowed
-(`fl = true`) and every integer is within ±2^53, where `i64 as f64` is exact.
-Arrays are members: `cmp` makes any two arrays `Equal`, which is still a total preorder. -/
+`inD fl v`: either there are no floats at all (`fl = false`, integers unrestricted) or floats are
+allowed (`fl = true`) and every integer is within ±2^53, where `i64 as f64` is exact — this
+recursively through arrays and objects (whose payload in the model is the key-sorted entry list,
+which is what the real `Ord` compares). -/
 
+mutual
 def inD (fl : Bool) : Value → Bool
-  | obj _ => false
-  | float _ => fl
+  | none => true
+  | bool _ => true
   | int i => !fl || decide (i.natAbs ≤ two53)
-  | _ => true
+  | float _ => fl
+  | str _ => true
+  | date _ => true
+  | dur _ => true
+  | arr vs => inDL fl vs
+  | obj kvs => inDKV fl kvs
+def inDL (fl : Bool) : List Value → Bool
+  | [] => true
+  | x :: xs => inD fl x && inDL fl xs
+def inDKV (fl : Bool) : List (String × Value) → Bool
+  | [] => true
+  | (_, x) :: xs => inD fl x && inDKV fl xs
+end
 
 /-- the double a number is compared as -/
 def toF : Value → F64
@@ -52,14 +66,42 @@ theorem rank_le_of_isLE {a b : Value} (h : (cmp a b).isLE) : a.rank ≤ b.rank :
   rw [cmp_rank_gt a b hlt] at h
   exact absurd h (by decide)
 
-theorem cmpBool_swap (a b : Bool) : (cmpBool a b).swap = cmpBool b a := by
-  cases a <;> cases b <;> rfl
+theorem rank_le_of_cmp_lt {a b : Value} (h : cmp a b = .lt) : a.rank ≤ b.rank :=
+  rank_le_of_isLE (by rw [h]; rfl)
 
-theorem cmpBool_isLE_trans {a b c : Bool} (h1 : (cmpBool a b).isLE) (h2 : (cmpBool b c).isLE) :
-    (cmpBool a c).isLE := by
-  cases a <;> cases b <;> cases c <;> simp_all [cmpBool]
+theorem rank_eq_of_cmp_eq {a b : Value} (h : cmp a b = .eq) : a.rank = b.rank := by
+  rcases Nat.lt_trichotomy a.rank b.rank with h1 | h1 | h1
+  · rw [cmp_rank_lt a b h1] at h; exact absurd h (by decide)
+  · exact h1
+  · rw [cmp_rank_gt a b h1] at h; exact absurd h (by decide)
+
+/-! ### the shape of `cmpL` / `cmpKV`: lexicographic (`Ordering.then`) -/
+
+theorem cmpL_nil_nil : cmpL [] [] = .eq := by simp [cmpL]
+theorem cmpL_nil_cons (y : Value) (ys : List Value) : cmpL [] (y :: ys) = .lt := by simp [cmpL]
+theorem cmpL_cons_nil (x : Value) (xs : List Value) : cmpL (x :: xs) [] = .gt := by simp [cmpL]
+theorem cmpL_cons_cons (x y : Value) (xs ys : List Value) :
+    cmpL (x :: xs) (y :: ys) = (cmp x y).then (cmpL xs ys) := by
+  rw [cmpL]; cases cmp x y <;> rfl
+
+theorem cmpKV_nil_nil : cmpKV [] [] = .eq := by simp [cmpKV]
+theorem cmpKV_nil_cons (y : String × Value) (ys : List (String × Value)) :
+    cmpKV [] (y :: ys) = .lt := by simp [cmpKV]
+theorem cmpKV_cons_nil (x : String × Value) (xs : List (String × Value)) :
+    cmpKV (x :: xs) [] = .gt := by simp [cmpKV]
+theorem cmpKV_cons_cons (k l : String) (x y : Value) (xs ys : List (String × Value)) :
+    cmpKV ((k, x) :: xs) ((l, y) :: ys) =
+      (compare k l).then ((cmp x y).then (cmpKV xs ys)) := by
+  rw [cmpKV]; cases compare k l <;> cases cmp x y <;> rfl
+
+theorem cmp_arr_arr (a b : List Value) : cmp (arr a) (arr b) = cmpL a b := by simp [cmp]
+theorem cmp_obj_obj (a b : List (String × Value)) : cmp (obj a) (obj b) = cmpKV a b := by
+  simp [cmp]
 
 /-! ### numbers are compared as doubles -/
+
+theorem cmpBool_swap (a b : Bool) : (cmpBool a b).swap = cmpBool b a := by
+  cases a <;> cases b <;> rfl
 
 theorem cmp_num {fl : Bool} {a b : Value} (ha : inD fl a) (hb : inD fl b)
     (na : isNum a) (nb : isNum b) (hfl : fl = true) : cmp a b = ocmp (toF a) (toF b) := by
@@ -70,69 +112,350 @@ theorem cmp_num {fl : Bool} {a b : Value} (ha : inD fl a) (hb : inD fl b)
 
 theorem cmp_int_int (a b : Int) : cmp (int a) (int b) = compare a b := by simp [cmp]
 
-/-! ### orientation (all values except object/object pairs) -/
+/-! ### orientation: swapping the arguments swaps the outcome — for ALL values -/
 
-theorem cmp_swap (a b : Value) (h : ¬ (a.rank = 7 ∧ b.rank = 7)) : (cmp a b).swap = cmp b a := by
-  cases a <;> cases b <;> simp [rank] at h <;>
+/-- values that are neither arrays nor objects -/
+theorem cmp_swap_flat (a b : Value) (h : a.rank < 6) : (cmp a b).swap = cmp b a := by
+  cases a <;> simp [rank] at h <;> cases b <;>
     simp [cmp, rank, ocmp_swap, Int.compare_swap, cmpBool_swap] <;> try decide
   exact (Std.OrientedOrd.eq_swap).symm
 
-/-! ### transitivity on the domain -/
+mutual
+theorem cmp_swap : ∀ a b : Value, (cmp a b).swap = cmp b a
+  | .none, b => cmp_swap_flat _ b (by simp [rank])
+  | .bool _, b => cmp_swap_flat _ b (by simp [rank])
+  | .int _, b => cmp_swap_flat _ b (by simp [rank])
+  | .float _, b => cmp_swap_flat _ b (by simp [rank])
+  | .str _, b => cmp_swap_flat _ b (by simp [rank])
+  | .date _, b => cmp_swap_flat _ b (by simp [rank])
+  | .dur _, b => cmp_swap_flat _ b (by simp [rank])
+  | .arr xs, b => by
+    cases b <;>
+      first
+        | (rw [cmp_arr_arr, cmp_arr_arr]; exact cmpL_swap xs _)
+        | (simp [cmp, rank] <;> decide)
+  | .obj xs, b => by
+    cases b <;>
+      first
+        | (rw [cmp_obj_obj, cmp_obj_obj]; exact cmpKV_swap xs _)
+        | (simp [cmp, rank] <;> decide)
+theorem cmpL_swap : ∀ a b : List Value, (cmpL a b).swap = cmpL b a
+  | [], [] => by simp [cmpL]
+  | [], _ :: _ => by simp [cmpL]
+  | _ :: _, [] => by simp [cmpL]
+  | x :: xs, y :: ys => by
+    rw [cmpL_cons_cons, cmpL_cons_cons, Ordering.swap_then, cmp_swap x y, cmpL_swap xs ys]
+theorem cmpKV_swap : ∀ a b : List (String × Value), (cmpKV a b).swap = cmpKV b a
+  | [], [] => by simp [cmpKV]
+  | [], _ :: _ => by simp [cmpKV]
+  | _ :: _, [] => by simp [cmpKV]
+  | (k, x) :: xs, (l, y) :: ys => by
+    rw [cmpKV_cons_cons, cmpKV_cons_cons, Ordering.swap_then, Ordering.swap_then,
+      cmp_swap x y, cmpKV_swap xs ys, ← Std.OrientedOrd.eq_swap]
+end
 
-theorem cmp_isLE_trans {fl : Bool} {a b c : Value} (ha : inD fl a) (hb : inD fl b) (hc : inD fl c)
-    (h1 : (cmp a b).isLE) (h2 : (cmp b c).isLE) : (cmp a c).isLE := by
-  have r1 := rank_le_of_isLE h1
-  have r2 := rank_le_of_isLE h2
-  by_cases hlt : a.rank < c.rank
-  · rw [cmp_rank_lt a c hlt]; decide
-  have rab : a.rank = b.rank := by omega
-  have rbc : b.rank = c.rank := by omega
+theorem swap_eq_self {o : Ordering} (h : o.swap = o) : o = .eq := by
+  cases o <;> simp_all
+
+/-- reflexivity for all values -/
+theorem cmp_self (a : Value) : cmp a a = .eq := swap_eq_self (cmp_swap a a)
+theorem cmpL_self (a : List Value) : cmpL a a = .eq := swap_eq_self (cmpL_swap a a)
+theorem cmpKV_self (a : List (String × Value)) : cmpKV a a = .eq := swap_eq_self (cmpKV_swap a a)
+
+/-! ### transitivity, as a package that is closed under lexicographic combination -/
+
+/-- the four transitivity laws of a three-way comparison on one triple -/
+structure TransOK (ab bc ac : Ordering) : Prop where
+  ll : ab = .lt → bc = .lt → ac = .lt
+  le : ab = .lt → bc = .eq → ac = .lt
+  el : ab = .eq → bc = .lt → ac = .lt
+  ee : ab = .eq → bc = .eq → ac = .eq
+
+theorem TransOK.isLE {ab bc ac : Ordering} (h : TransOK ab bc ac)
+    (h1 : ab.isLE) (h2 : bc.isLE) : ac.isLE := by
+  cases ab <;> cases bc <;> simp at h1 h2
+  · rw [h.ll rfl rfl]; rfl
+  · rw [h.le rfl rfl]; rfl
+  · rw [h.el rfl rfl]; rfl
+  · rw [h.ee rfl rfl]; rfl
+
+theorem TransOK.then {xy yz xz r1 r2 r3 : Ordering} (h : TransOK xy yz xz)
+    (h' : TransOK r1 r2 r3) : TransOK (xy.then r1) (yz.then r2) (xz.then r3) := by
+  constructor
+  · intro a b
+    rw [Ordering.then_eq_lt] at a b ⊢
+    rcases a with a | ⟨a, a'⟩ <;> rcases b with b | ⟨b, b'⟩
+    · exact .inl (h.ll a b)
+    · exact .inl (h.le a b)
+    · exact .inl (h.el a b)
+    · exact .inr ⟨h.ee a b, h'.ll a' b'⟩
+  · intro a b
+    rw [Ordering.then_eq_lt] at a ⊢
+    rw [Ordering.then_eq_eq] at b
+    rcases a with a | ⟨a, a'⟩
+    · exact .inl (h.le a b.1)
+    · exact .inr ⟨h.ee a b.1, h'.le a' b.2⟩
+  · intro a b
+    rw [Ordering.then_eq_lt] at b ⊢
+    rw [Ordering.then_eq_eq] at a
+    rcases b with b | ⟨b, b'⟩
+    · exact .inl (h.el a.1 b)
+    · exact .inr ⟨h.ee a.1 b, h'.el a.2 b'⟩
+  · intro a b
+    rw [Ordering.then_eq_eq] at a b ⊢
+    exact ⟨h.ee a.1 b.1, h'.ee a.2 b.2⟩
+
+theorem transOK_of_transCmp {α} (c : α → α → Ordering) [Std.TransCmp c] (x y z : α) :
+    TransOK (c x y) (c y z) (c x z) :=
+  ⟨Std.TransCmp.lt_trans, Std.TransCmp.lt_of_lt_of_eq, Std.TransCmp.lt_of_eq_of_lt,
+    Std.TransCmp.eq_trans⟩
+
+theorem transOK_cmpBool (a b c : Bool) : TransOK (cmpBool a b) (cmpBool b c) (cmpBool a c) := by
+  cases a <;> cases b <;> cases c <;> constructor <;> simp [cmpBool]
+
+/-- triples whose ranks are not all equal: decided by `rank` alone (all values) -/
+theorem transOK_of_rank (a b c : Value) (h : ¬ (a.rank = b.rank ∧ b.rank = c.rank)) :
+    TransOK (cmp a b) (cmp b c) (cmp a c) := by
+  constructor
+  · intro h1 h2
+    have := rank_le_of_cmp_lt h1; have := rank_le_of_cmp_lt h2
+    exact cmp_rank_lt a c (by omega)
+  · intro h1 h2
+    have := rank_le_of_cmp_lt h1; have := rank_eq_of_cmp_eq h2
+    exact cmp_rank_lt a c (by omega)
+  · intro h1 h2
+    have := rank_eq_of_cmp_eq h1; have := rank_le_of_cmp_lt h2
+    exact cmp_rank_lt a c (by omega)
+  · intro h1 h2
+    have := rank_eq_of_cmp_eq h1; have := rank_eq_of_cmp_eq h2
+    omega
+
+/-- scalars (neither arrays nor objects) in the domain -/
+theorem cmp_transOK_flat {fl : Bool} (a b c : Value) (ha : inD fl a) (hb : inD fl b)
+    (hc : inD fl c) (hflat : a.rank < 6) : TransOK (cmp a b) (cmp b c) (cmp a c) := by
+  by_cases hr : ¬ (a.rank = b.rank ∧ b.rank = c.rank)
+  · exact transOK_of_rank a b c hr
+  obtain ⟨rab, rbc⟩ := Classical.not_not.1 hr
   by_cases hn : isNum a
   · have hnb : isNum b := isNum_of_rank rab hn
     have hnc : isNum c := isNum_of_rank rbc hnb
     cases fl
-    · -- no floats: all three are ints
-      cases a <;> cases b <;> cases c <;> simp_all [isNum, inD]
-      simp only [cmp_int_int] at h1 h2 ⊢
-      exact Std.TransCmp.isLE_trans h1 h2
-    · rw [cmp_num ha hb hn hnb rfl] at h1
-      rw [cmp_num hb hc hnb hnc rfl] at h2
-      rw [cmp_num ha hc hn hnc rfl]
-      exact ocmp_isLE_trans h1 h2
-  · cases a <;> simp [isNum] at hn <;> cases b <;> simp [rank] at rab <;>
-      cases c <;> simp [rank] at rbc <;> simp_all [cmp, inD, rank]
-    · exact cmpBool_isLE_trans h1 h2
-    · exact Std.TransCmp.isLE_trans h1 h2
-    · exact Std.TransCmp.isLE_trans h1 h2
-    · exact Std.TransCmp.isLE_trans h1 h2
+    · cases a <;> simp [isNum] at hn <;> cases b <;> simp [isNum] at hnb <;>
+        cases c <;> simp [isNum] at hnc <;> simp [inD] at ha hb hc
+      simp only [cmp_int_int]
+      exact transOK_of_transCmp (compare : Int → Int → Ordering) _ _ _
+    · rw [cmp_num ha hb hn hnb rfl, cmp_num hb hc hnb hnc rfl, cmp_num ha hc hn hnc rfl]
+      exact transOK_of_transCmp ocmp _ _ _
+  · cases a <;> simp [isNum] at hn <;> simp [rank] at hflat <;> cases b <;> simp [rank] at rab <;>
+      cases c <;> simp [rank] at rbc <;> simp only [cmp, rank]
+    · constructor <;> simp
+    · exact transOK_cmpBool _ _ _
+    · exact transOK_of_transCmp (compare : String → String → Ordering) _ _ _
+    · exact transOK_of_transCmp (compare : Int → Int → Ordering) _ _ _
+    · exact transOK_of_transCmp (compare : Int → Int → Ordering) _ _ _
 
-/-! ### `==` (derived `PartialEq`) against `cmp … = Equal` on scalars with normalised numbers -/
+mutual
+theorem cmp_transOK (fl : Bool) : ∀ a b c : Value, inD fl a = true → inD fl b = true →
+    inD fl c = true → TransOK (cmp a b) (cmp b c) (cmp a c)
+  | .none, b, c, ha, hb, hc => cmp_transOK_flat _ b c ha hb hc (by simp [rank])
+  | .bool _, b, c, ha, hb, hc => cmp_transOK_flat _ b c ha hb hc (by simp [rank])
+  | .int _, b, c, ha, hb, hc => cmp_transOK_flat _ b c ha hb hc (by simp [rank])
+  | .float _, b, c, ha, hb, hc => cmp_transOK_flat _ b c ha hb hc (by simp [rank])
+  | .str _, b, c, ha, hb, hc => cmp_transOK_flat _ b c ha hb hc (by simp [rank])
+  | .date _, b, c, ha, hb, hc => cmp_transOK_flat _ b c ha hb hc (by simp [rank])
+  | .dur _, b, c, ha, hb, hc => cmp_transOK_flat _ b c ha hb hc (by simp [rank])
+  | .arr xs, b, c, ha, hb, hc => by
+    by_cases hr : ¬ ((arr xs).rank = b.rank ∧ b.rank = c.rank)
+    · exact transOK_of_rank _ b c hr
+    obtain ⟨rab, rbc⟩ := Classical.not_not.1 hr
+    cases b <;> simp [rank] at rab
+    cases c <;> simp [rank] at rbc
+    simp only [inD] at ha hb hc
+    simp only [cmp_arr_arr]
+    exact cmpL_transOK fl xs _ _ ha hb hc
+  | .obj xs, b, c, ha, hb, hc => by
+    by_cases hr : ¬ ((obj xs).rank = b.rank ∧ b.rank = c.rank)
+    · exact transOK_of_rank _ b c hr
+    obtain ⟨rab, rbc⟩ := Classical.not_not.1 hr
+    cases b <;> simp [rank] at rab
+    cases c <;> simp [rank] at rbc
+    simp only [inD] at ha hb hc
+    simp only [cmp_obj_obj]
+    exact cmpKV_transOK fl xs _ _ ha hb hc
+theorem cmpL_transOK (fl : Bool) : ∀ a b c : List Value, inDL fl a = true → inDL fl b = true →
+    inDL fl c = true → TransOK (cmpL a b) (cmpL b c) (cmpL a c)
+  | [], b, c, _, _, _ => by
+    cases b <;> cases c <;> constructor <;> simp [cmpL]
+  | x :: xs, b, c, ha, hb, hc => by
+    cases b with
+    | nil => cases c <;> constructor <;> simp [cmpL]
+    | cons y ys =>
+      cases c with
+      | nil => constructor <;> simp [cmpL]
+      | cons z zs =>
+        simp only [inDL, Bool.and_eq_true] at ha hb hc
+        simp only [cmpL_cons_cons]
+        exact (cmp_transOK fl x y z ha.1 hb.1 hc.1).then (cmpL_transOK fl xs ys zs ha.2 hb.2 hc.2)
+theorem cmpKV_transOK (fl : Bool) : ∀ a b c : List (String × Value), inDKV fl a = true →
+    inDKV fl b = true → inDKV fl c = true → TransOK (cmpKV a b) (cmpKV b c) (cmpKV a c)
+  | [], b, c, _, _, _ => by
+    cases b <;> cases c <;> constructor <;> simp [cmpKV]
+  | (k, x) :: xs, b, c, ha, hb, hc => by
+    cases b with
+    | nil => cases c <;> constructor <;> simp [cmpKV]
+    | cons y ys =>
+      obtain ⟨l, y⟩ := y
+      cases c with
+      | nil => constructor <;> simp [cmpKV]
+      | cons z zs =>
+        obtain ⟨n, z⟩ := z
+        simp only [inDKV, Bool.and_eq_true] at ha hb hc
+        simp only [cmpKV_cons_cons]
+        exact (transOK_of_transCmp (compare : String → String → Ordering) k l n).then
+          ((cmp_transOK fl x y z ha.1 hb.1 hc.1).then
+            (cmpKV_transOK fl xs ys zs ha.2 hb.2 hc.2))
+end
 
-/-- scalar values whose numbers are normalised the way `from_float` leaves them: a `float` never
-holds an integral value (NaN and ±inf count as non-integral), integers within ±2^53 -/
+theorem cmp_isLE_trans {fl : Bool} {a b c : Value} (ha : inD fl a) (hb : inD fl b) (hc : inD fl c)
+    (h1 : (cmp a b).isLE) (h2 : (cmp b c).isLE) : (cmp a c).isLE :=
+  (cmp_transOK fl a b c ha hb hc).isLE h1 h2
+
+/-! ### `==` (derived `PartialEq`) against `cmp … = Equal` on values with normalised numbers -/
+
+/-- a `Float` as `from_float` leaves it: it does not hold an integer of the i64 range (NaN, ±inf,
+non-integral doubles, and integral doubles beyond ±2^63) -/
+def normFloat : F64 → Bool
+  | fin s m e => fractNonzero (fin s m e) || !inI64 (truncInt s m e)
+  | _ => true
+
+mutual
+/-- values whose numbers are normalised the way `from_float` leaves them (a `Float` never holds
+an integer of the i64 range), integers within ±2^53 — recursively through arrays and objects -/
 def inS : Value → Bool
   | none => true
   | bool _ => true
+  | int i => decide (i.natAbs ≤ two53)
+  | float f => normFloat f
   | str _ => true
   | date _ => true
   | dur _ => true
-  | int i => decide (i.natAbs ≤ two53)
-  | float f => fractNonzero f
-  | arr _ => false
-  | obj _ => false
+  | arr vs => inSL vs
+  | obj kvs => inSKV kvs
+def inSL : List Value → Bool
+  | [] => true
+  | x :: xs => inS x && inSL xs
+def inSKV : List (String × Value) → Bool
+  | [] => true
+  | (_, x) :: xs => inS x && inSKV xs
+end
 
-theorem inD_of_inS {a : Value} (h : inS a) : inD true a := by
-  cases a <;> simp_all [inS, inD]
+mutual
+theorem inD_of_inS : ∀ a : Value, inS a = true → inD true a = true
+  | .none, _ => by simp [inD]
+  | .bool _, _ => by simp [inD]
+  | .int _, h => by simpa [inS, inD] using h
+  | .float _, _ => by simp [inD]
+  | .str _, _ => by simp [inD]
+  | .date _, _ => by simp [inD]
+  | .dur _, _ => by simp [inD]
+  | .arr xs, h => by simp only [inS] at h; simp only [inD]; exact inDL_of_inSL xs h
+  | .obj xs, h => by simp only [inS] at h; simp only [inD]; exact inDKV_of_inSKV xs h
+theorem inDL_of_inSL : ∀ a : List Value, inSL a = true → inDL true a = true
+  | [], _ => by simp [inDL]
+  | x :: xs, h => by
+    simp only [inSL, Bool.and_eq_true] at h
+    simp only [inDL, Bool.and_eq_true]
+    exact ⟨inD_of_inS x h.1, inDL_of_inSL xs h.2⟩
+theorem inDKV_of_inSKV : ∀ a : List (String × Value), inSKV a = true → inDKV true a = true
+  | [], _ => by simp [inDKV]
+  | (_, x) :: xs, h => by
+    simp only [inSKV, Bool.and_eq_true] at h
+    simp only [inDKV, Bool.and_eq_true]
+    exact ⟨inD_of_inS x h.1, inDKV_of_inSKV xs h.2⟩
+end
 
 theorem cmpBool_eq_iff (a b : Bool) : cmpBool a b = .eq ↔ a = b := by
   cases a <;> cases b <;> simp [cmpBool]
 
-theorem beq_iff_cmp_eq {a b : Value} (ha : inS a) (hb : inS b) :
+/-- a normalised double is not `Equal` to any integer within ±2^53 -/
+theorem ocmp_ofInt_ne_eq_norm {i : Int} {f : F64} (hi : i.natAbs ≤ two53) (hf : normFloat f = true) :
+    ocmp (ofInt i) f ≠ .eq ∧ ocmp f (ofInt i) ≠ .eq := by
+  have h1 : ocmp (ofInt i) f ≠ .eq := by
+    intro h
+    have hv := ocmp_eq_hasVal (ofInt_hasVal hi).1 h
+    cases f with
+    | nan => simp [HasVal] at hv
+    | inf b => simp [HasVal] at hv
+    | fin s m e =>
+      simp only [normFloat, Bool.or_eq_true, Bool.not_eq_true'] at hf
+      rcases hf with hf | hf
+      · exact not_hasVal_int_of_fractNonzero hf hv
+      · by_cases hfr : fractNonzero (fin s m e) = true
+        · exact not_hasVal_int_of_fractNonzero hfr hv
+        · have hfr' : fractNonzero (fin s m e) = false := by simpa using hfr
+          -- integral: its value is `truncInt`, which is outside the i64 range, but equals `i`
+          have hv2 : HasVal (fin s m e) (truncInt s m e) 0 := truncInt_hasVal hfr'
+          have := hasVal_unique hv hv2
+          rw [← this] at hf
+          simp only [inI64, Bool.and_eq_false_iff, i64Min, i64Max] at hf
+          simp only [two53] at hi
+          rcases hf with hf | hf <;> (have := of_decide_eq_false hf; omega)
+  refine ⟨h1, fun h => h1 ?_⟩
+  rw [← ocmp_swap, h]; rfl
+
+theorem beq_iff_cmp_eq_flat {a b : Value} (ha : inS a) (hb : inS b) (hflat : a.rank < 6) :
     beq a b = true ↔ cmp a b = .eq := by
-  cases a <;> cases b <;> simp [inS] at ha hb <;>
+  cases a <;> simp [rank] at hflat <;> cases b <;> simp [inS] at ha hb <;>
     simp [beq, cmp, rank, cmpBool_eq_iff, oeq_iff] <;> try decide
-  · exact (ocmp_ofInt_ne_eq ha hb).1
-  · exact (ocmp_ofInt_ne_eq hb ha).2
+  · exact (ocmp_ofInt_ne_eq_norm ha hb).1
+  · exact (ocmp_ofInt_ne_eq_norm hb ha).2
+
+mutual
+theorem beq_iff_cmp_eq : ∀ a b : Value, inS a = true → inS b = true →
+    (beq a b = true ↔ cmp a b = .eq)
+  | .none, _, ha, hb => beq_iff_cmp_eq_flat ha hb (by simp [rank])
+  | .bool _, _, ha, hb => beq_iff_cmp_eq_flat ha hb (by simp [rank])
+  | .int _, _, ha, hb => beq_iff_cmp_eq_flat ha hb (by simp [rank])
+  | .float _, _, ha, hb => beq_iff_cmp_eq_flat ha hb (by simp [rank])
+  | .str _, _, ha, hb => beq_iff_cmp_eq_flat ha hb (by simp [rank])
+  | .date _, _, ha, hb => beq_iff_cmp_eq_flat ha hb (by simp [rank])
+  | .dur _, _, ha, hb => beq_iff_cmp_eq_flat ha hb (by simp [rank])
+  | .arr xs, b, ha, hb => by
+    cases b <;> try (simp [beq, cmp, rank]; done)
+    simp only [inS] at ha hb
+    simp only [beq, cmp_arr_arr]
+    exact beqL_iff_cmpL_eq xs _ ha hb
+  | .obj xs, b, ha, hb => by
+    cases b <;> try (simp [beq, cmp, rank]; done)
+    simp only [inS] at ha hb
+    simp only [beq, cmp_obj_obj]
+    exact beqKV_iff_cmpKV_eq xs _ ha hb
+theorem beqL_iff_cmpL_eq : ∀ a b : List Value, inSL a = true → inSL b = true →
+    (beqL a b = true ↔ cmpL a b = .eq)
+  | [], b, _, _ => by cases b <;> simp [beqL, cmpL]
+  | x :: xs, b, ha, hb => by
+    cases b with
+    | nil => simp [beqL, cmpL]
+    | cons y ys =>
+      simp only [inSL, Bool.and_eq_true] at ha hb
+      rw [cmpL_cons_cons, Ordering.then_eq_eq]
+      simp only [beqL, Bool.and_eq_true]
+      rw [beq_iff_cmp_eq x y ha.1 hb.1, beqL_iff_cmpL_eq xs ys ha.2 hb.2]
+theorem beqKV_iff_cmpKV_eq : ∀ a b : List (String × Value), inSKV a = true → inSKV b = true →
+    (beqKV a b = true ↔ cmpKV a b = .eq)
+  | [], b, _, _ => by cases b <;> simp [beqKV, cmpKV]
+  | (k, x) :: xs, b, ha, hb => by
+    cases b with
+    | nil => simp [beqKV, cmpKV]
+    | cons y ys =>
+      obtain ⟨l, y⟩ := y
+      simp only [inSKV, Bool.and_eq_true] at ha hb
+      rw [cmpKV_cons_cons, Ordering.then_eq_eq, Ordering.then_eq_eq]
+      simp only [beqKV, Bool.and_eq_true, beq_iff_eq]
+      rw [beq_iff_cmp_eq x y ha.1 hb.1, beqKV_iff_cmpKV_eq xs ys ha.2 hb.2,
+        Std.LawfulEqOrd.compare_eq_iff_eq]
+      exact and_assoc
+end
 
 /-! ### exact numeric value of a `Value`; numbers compare by it -/
 
@@ -159,9 +482,6 @@ theorem cmp_eq_dcmp {fl : Bool} {a b : Value} {x y : Dyadic} (ha : inD fl a) (hb
     exact ocmp_eq_dcmp hx (by rw [val_ofInt hb, hy])
   · simp only [cmp]
     exact ocmp_eq_dcmp hx hy
-
-theorem rank_ne_obj_of_inD {fl : Bool} {a : Value} (h : inD fl a) : a.rank ≠ 7 := by
-  cases a <;> simp_all [inD, rank]
 
 end Value
 end Ag
